@@ -232,6 +232,12 @@ func (n *Namespace) add(c *serverConn, auth json.RawMessage) (*serverSocket, err
 func (n *Namespace) doConnect(socket *serverSocket) error {
 	n.sockets.set(socket)
 
+	// The connection has to know the socket before the CONNECT reply is written:
+	// a client may send its first packet as soon as it reads the reply, and a packet
+	// for a namespace the connection does not know closes the whole connection.
+	socket.conn.sockets.set(socket)
+	socket.conn.nsps.set(n)
+
 	// It is paramount that the internal `onconnect` logic
 	// fires before user-set events to prevent state order
 	// violations (such as a disconnection before the connection
